@@ -58,19 +58,31 @@ bound: the line / rest of the stream has 4096..8190 bytes (two fgets chunks)
 */
 /*@unit
 name: str_init_from_fd.eof
-define: VP=str, U_FD, VG_FIRST=2
+define: VP=str, VSTR_READ_DATA_UNOBSERVED, VSTR_INST=2, VSTR_OWN_REALLOC, U_FD, VG_FIRST=2, U_ERRNO_CLEAN
 src: str.c, obj.c
 enforce: spif_str_init_from_fd
 tier: B
 unwind: 3
-bound: the first read() reports end of file
 backend: sat
 timeout: 300
 flags: --slice-formula
+bound: the first read() reports end of file
+*/
+/*@unit
+name: str_init_from_fd.eof_errno
+define: VP=str, VSTR_READ_DATA_UNOBSERVED, VSTR_INST=2, VSTR_OWN_REALLOC, U_FD, VG_FIRST=2, U_ERRNO_EINTR
+src: str.c, obj.c
+enforce: spif_str_init_from_fd
+tier: B
+unwind: 3
+backend: sat
+timeout: 300
+flags: --slice-formula
+bound: the first read() reports end of file
 */
 /*@unit
 name: str_init_from_fd.data
-define: VP=str, U_FD, VG_FIRST=1
+define: VP=str, VSTR_READ_DATA_UNOBSERVED, VSTR_INST=2, VSTR_OWN_REALLOC, U_FD, VG_FIRST=1
 src: str.c, obj.c
 enforce: spif_str_init_from_fd
 tier: B
@@ -82,7 +94,7 @@ flags: --slice-formula
 */
 /*@unit
 name: str_init_from_fd.eintr
-define: VP=str, U_FD, VG_FIRST=3
+define: VP=str, VSTR_READ_DATA_UNOBSERVED, VSTR_INST=2, VSTR_OWN_REALLOC, U_FD, VG_FIRST=3
 src: str.c, obj.c
 enforce: spif_str_init_from_fd
 tier: B
@@ -91,6 +103,30 @@ bound: the first read() fails with EINTR, then up to two more calls with any out
 backend: sat
 timeout: 300
 flags: --slice-formula
+*/
+/*@unit
+name: str_new_from_fp.line
+define: VP=str, U_NEWFP, U_FP_LINE
+src: str.c, obj.c
+enforce: spif_str_new_from_fp
+tier: B
+unwind: 3
+backend: sat
+timeout: 300
+flags: --slice-formula
+bound: a line of 1..4095 bytes including its newline (one fgets chunk)
+*/
+/*@unit
+name: str_new_from_fd.eof
+define: VP=str, VSTR_READ_DATA_UNOBSERVED, VSTR_INST=2, VSTR_OWN_REALLOC, U_NEWFD, VG_FIRST=2, U_ERRNO_CLEAN
+src: str.c, obj.c
+enforce: spif_str_new_from_fd
+tier: B
+unwind: 3
+backend: sat
+timeout: 300
+flags: --slice-formula
+bound: the first read() reports end of file
 */
 /*@unit
 name: str_sprintf.empty
@@ -169,19 +205,31 @@ bound: the line / rest of the stream has 4096..8190 bytes (two fgets chunks)
 */
 /*@unit
 name: ustr_init_from_fd.eof
-define: VP=ustr, U_FD, VG_FIRST=2
+define: VP=ustr, VSTR_READ_DATA_UNOBSERVED, VSTR_INST=2, VSTR_OWN_REALLOC, U_FD, VG_FIRST=2, U_ERRNO_CLEAN
 src: ustr.c, obj.c
 enforce: spif_ustr_init_from_fd
 tier: B
 unwind: 3
-bound: the first read() reports end of file
 backend: sat
 timeout: 300
 flags: --slice-formula
+bound: the first read() reports end of file
+*/
+/*@unit
+name: ustr_init_from_fd.eof_errno
+define: VP=ustr, VSTR_READ_DATA_UNOBSERVED, VSTR_INST=2, VSTR_OWN_REALLOC, U_FD, VG_FIRST=2, U_ERRNO_EINTR
+src: ustr.c, obj.c
+enforce: spif_ustr_init_from_fd
+tier: B
+unwind: 3
+backend: sat
+timeout: 300
+flags: --slice-formula
+bound: the first read() reports end of file
 */
 /*@unit
 name: ustr_init_from_fd.data
-define: VP=ustr, U_FD, VG_FIRST=1
+define: VP=ustr, VSTR_READ_DATA_UNOBSERVED, VSTR_INST=2, VSTR_OWN_REALLOC, U_FD, VG_FIRST=1
 src: ustr.c, obj.c
 enforce: spif_ustr_init_from_fd
 tier: B
@@ -193,7 +241,7 @@ flags: --slice-formula
 */
 /*@unit
 name: ustr_init_from_fd.eintr
-define: VP=ustr, U_FD, VG_FIRST=3
+define: VP=ustr, VSTR_READ_DATA_UNOBSERVED, VSTR_INST=2, VSTR_OWN_REALLOC, U_FD, VG_FIRST=3
 src: ustr.c, obj.c
 enforce: spif_ustr_init_from_fd
 tier: B
@@ -202,6 +250,30 @@ bound: the first read() fails with EINTR, then up to two more calls with any out
 backend: sat
 timeout: 300
 flags: --slice-formula
+*/
+/*@unit
+name: ustr_new_from_fp.line
+define: VP=ustr, U_NEWFP, U_FP_LINE
+src: ustr.c, obj.c
+enforce: spif_ustr_new_from_fp
+tier: B
+unwind: 3
+backend: sat
+timeout: 300
+flags: --slice-formula
+bound: a line of 1..4095 bytes including its newline (one fgets chunk)
+*/
+/*@unit
+name: ustr_new_from_fd.eof
+define: VP=ustr, VSTR_READ_DATA_UNOBSERVED, VSTR_INST=2, VSTR_OWN_REALLOC, U_NEWFD, VG_FIRST=2, U_ERRNO_CLEAN
+src: ustr.c, obj.c
+enforce: spif_ustr_new_from_fd
+tier: B
+unwind: 3
+backend: sat
+timeout: 300
+flags: --slice-formula
+bound: the first read() reports end of file
 */
 /*@unit
 name: ustr_sprintf.empty
@@ -246,13 +318,17 @@ __CPROVER_requires(vg_stream_left >= 1 && vg_stream_left <= 4095 && !vg_stream_n
 #else
 __CPROVER_requires(vg_stream_left >= 4096 && vg_stream_left <= 8190)
 #endif
-__CPROVER_requires(vg_fgets_calls == 0 && vg_stream_total == 0)
-__CPROVER_assigns(*self, vg_slen, vg_slen_ptr, vg_stream_left, vg_stream_total, vg_stream_nl, vg_fgets_calls)
+__CPROVER_requires(vg_fgets_calls == 0 && vg_stream_total == 0 && vg_stream_text && vg_fgets_buf == NULL)
+__CPROVER_assigns(*self, vg_slen, vg_slen_ptr, vg_stream_left, vg_stream_total, vg_stream_nl, vg_fgets_calls, vg_fgets_buf, vg_fgets_got, vg_fgets_nl)
 __CPROVER_ensures(R == TRUE && STR_HAS_CLASS(self))
 __CPROVER_ensures(STR_NONEMPTY_POST(self) && __CPROVER_is_fresh(self->s, (size_t) self->size))
 /* never longer than what the stream delivered for this line (newline not counted) */
 __CPROVER_ensures((size_t) self->len <= __CPROVER_old(vg_stream_left))
 __CPROVER_ensures(self->size == self->len + 1)
+#ifdef U_FP_LINE
+/* a text line: exactly the bytes before the newline */
+__CPROVER_ensures((size_t) self->len + 1 == __CPROVER_old(vg_stream_left))
+#endif
 ;
 void harness(void)
 {
@@ -268,6 +344,12 @@ void harness(void)
 spif_bool_t VF(init_from_fd)(VT self, int fd)
 __CPROVER_requires(STR_OBJ(self) && fd >= 0)
 __CPROVER_requires(vg_read_calls == 0 && vg_read_total == 0 && vg_read_first == VG_FIRST)
+#ifdef U_ERRNO_CLEAN
+__CPROVER_requires(vg_errno != EINTR)
+#endif
+#ifdef U_ERRNO_EINTR
+__CPROVER_requires(vg_errno == EINTR)
+#endif
 __CPROVER_assigns(*self, vg_read_calls, vg_read_total, vg_errno)
 __CPROVER_ensures(R == TRUE && STR_HAS_CLASS(self))
 __CPROVER_ensures(STR_NONEMPTY_POST(self) && __CPROVER_is_fresh(self->s, (size_t) self->size))
@@ -278,6 +360,43 @@ void harness(void)
     VT self; int fd;
     STR_BIND_CLASS();
     VF(init_from_fd)(self, fd);
+    VERIF_CANARY();
+}
+#endif
+
+#ifdef U_NEWFP
+/* wrapper: a fresh object initialised by init_from_fp (only the well-behaved one-chunk line is stated here; the
+ * reader's defects are recorded at init_from_fp) */
+VT VF(new_from_fp)(FILE *fp)
+__CPROVER_requires(fp != NULL && vg_stream_left >= 1 && vg_stream_left <= 4095 && vg_stream_nl)
+__CPROVER_requires(vg_fgets_calls == 0 && vg_stream_total == 0 && vg_stream_text && vg_fgets_buf == NULL)
+__CPROVER_assigns(vg_slen, vg_slen_ptr, vg_stream_left, vg_stream_total, vg_stream_nl, vg_fgets_calls, vg_fgets_buf, vg_fgets_got, vg_fgets_nl)
+__CPROVER_ensures(__CPROVER_is_fresh(R, sizeof(*R)) && STR_HAS_CLASS(R))
+__CPROVER_ensures(STR_NONEMPTY_POST(R) && __CPROVER_is_fresh(R->s, (size_t) R->size))
+__CPROVER_ensures((size_t) R->len + 1 == __CPROVER_old(vg_stream_left) && R->size == R->len + 1)
+;
+void harness(void)
+{
+    FILE *fp = nondet_ptr();
+    STR_BIND_CLASS();
+    VF(new_from_fp)(fp);
+    VERIF_CANARY();
+}
+#endif
+
+#ifdef U_NEWFD
+VT VF(new_from_fd)(int fd)
+__CPROVER_requires(fd >= 0 && vg_read_calls == 0 && vg_read_total == 0 && vg_read_first == VG_FIRST && vg_errno != EINTR)
+__CPROVER_assigns(vg_read_calls, vg_read_total, vg_errno)
+__CPROVER_ensures(__CPROVER_is_fresh(R, sizeof(*R)) && STR_HAS_CLASS(R))
+__CPROVER_ensures(STR_NONEMPTY_POST(R) && __CPROVER_is_fresh(R->s, (size_t) R->size))
+__CPROVER_ensures(R->len == 0 && R->size == 1)
+;
+void harness(void)
+{
+    int fd;
+    STR_BIND_CLASS();
+    VF(new_from_fd)(fd);
     VERIF_CANARY();
 }
 #endif
